@@ -86,11 +86,10 @@ theorem vtOK_interval {S ρ e tvt vvt lo hi Y} (hv : vtOK S e = true) (ht : e.an
     rcases (isBoolVal_eval hb he).1 with rfl | rfl <;> omega
 
 theorem outOfRange_sound {S ρ a op l r v b}
-    (hc : op.isCmp = true) (g : annOK S (.bin a op l r) = true) (hs : cmpSafe S (.bin a op l r) = true)
+    (hc : op.isCmp = true) (gl : annOK S l = true) (gr : annOK S r = true) (hs : cmpSafe S (.bin a op l r) = true)
     (hvl : vtOK S l = true) (hvr : vtOK S r = true)
     (h : outOfRange op 0 l r = some b ∨ outOfRange op 1 r l = some b)
     (he : eval S ρ (.bin a op l r) = some v) : v = b2i b := by
-  obtain ⟨gl, gr⟩ := annOK_bin g
   rcases h with h | h
   · unfold outOfRange at h
     split at h
@@ -265,11 +264,10 @@ theorem bitCmpVerdict_n1 {bitop op : BinOp} {uns : Bool} {n1 n2 : Int} {b : Bool
 /-- `comparison()` on `(x & n1) op r` / `(n1 & x) op r` with the Known value on the right: the verdict holds -/
 theorem bitand_cmp_sound {S ρ a op a' x an sp l r v n1 n2 b uns}
     (hl : l = .bin a' .band x (.lit an sp) ∨ l = .bin a' .band (.lit an sp) x)
-    (hc : op.isCmp = true) (g : annOK S (.bin a op l r) = true) (hs : cmpSafe S (.bin a op l r) = true)
+    (hc : op.isCmp = true) (gl : annOK S l = true) (gr : annOK S r = true) (hs : cmpSafe S (.bin a op l r) = true)
     (hk : r.ann.known = some n2) (hn2 : 0 ≤ n2) (hnum : an.num = some n1)
     (hv : bitCmpVerdict .band op uns n1 n2 = some b)
     (he : eval S ρ (.bin a op l r) = some v) : v = b2i b := by
-  obtain ⟨gl, gr⟩ := annOK_bin g
   obtain ⟨X, Y, hX, hY, e, _, cY⟩ := cmp_exact hs hc (Or.inr (by simp [hk])) he
   have q := known_eq gr hk hY cY
   obtain ⟨p, rfl⟩ := band_node_val hl gl hnum (bitCmpVerdict_n1 hv) hX
@@ -279,14 +277,276 @@ theorem bitand_cmp_sound {S ρ a op a' x an sp l r v n1 n2 b uns}
     comparator turned around, and it holds -/
 theorem bitand_cmp_sound_left {S ρ a op a' x an sp l r v n1 n2 b uns}
     (hr : r = .bin a' .band x (.lit an sp) ∨ r = .bin a' .band (.lit an sp) x)
-    (hc : op.isCmp = true) (g : annOK S (.bin a op l r) = true) (hs : cmpSafe S (.bin a op l r) = true)
+    (hc : op.isCmp = true) (gl : annOK S l = true) (gr : annOK S r = true) (hs : cmpSafe S (.bin a op l r) = true)
     (hk : l.ann.known = some n2) (hn2 : 0 ≤ n2) (hnum : an.num = some n1)
     (hv : bitCmpVerdict .band (flipOp op) uns n1 n2 = some b)
     (he : eval S ρ (.bin a op l r) = some v) : v = b2i b := by
-  obtain ⟨gl, gr⟩ := annOK_bin g
   obtain ⟨X, Y, hX, hY, e, cX, _⟩ := cmp_exact hs hc (Or.inl (by simp [hk])) he
   have q := known_eq gl hk hX cX
   obtain ⟨p, rfl⟩ := band_node_val hr gr hnum (bitCmpVerdict_n1 hv) hY
   rw [e, ← q, ← cmpZ_flip, bitAnd_verdict_sound hv hn2 p]
+
+/-! ### bit-or -/
+
+/-- `A | n` of two non-negative values of `T` is their natural-number `|||`, and stays in `T` -/
+theorem bor_const (T : Ty) (A n : Int) (hA : inRange T A) (hn : inRange T n) (a0 : 0 ≤ A) (n0 : 0 ≤ n) :
+    wrap T (Int.ofNat (pat T A ||| pat T n)) = ((A.toNat ||| n.toNat : Nat) : Int) := by
+  have key : ∀ k : Nat, (2 : Int) ^ k ≤ 2 ^ T.bits → tmax T = 2 ^ k - 1 →
+      wrap T (Int.ofNat (pat T A ||| pat T n)) = ((A.toNat ||| n.toNat : Nat) : Int) := by
+    intro k hpowle ht
+    have hAk : A < 2 ^ k := by have := hA.2; omega
+    have hnk : n < 2 ^ k := by have := hn.2; omega
+    have pA : pat T A = A.toNat := by unfold pat; rw [Int.emod_eq_of_lt a0 (by omega)]
+    have pn : pat T n = n.toNat := by unfold pat; rw [Int.emod_eq_of_lt n0 (by omega)]
+    have hAn : A.toNat < 2 ^ k := by
+      have : ((A.toNat : Nat) : Int) < ((2 ^ k : Nat) : Int) := by rw [Int.toNat_of_nonneg a0]; simpa using hAk
+      exact Int.ofNat_lt.mp this
+    have hnn : n.toNat < 2 ^ k := by
+      have : ((n.toNat : Nat) : Int) < ((2 ^ k : Nat) : Int) := by rw [Int.toNat_of_nonneg n0]; simpa using hnk
+      exact Int.ofNat_lt.mp this
+    have hor := Nat.or_lt_two_pow hAn hnn
+    have horI : ((A.toNat ||| n.toNat : Nat) : Int) < 2 ^ k := by
+      have := Int.ofNat_lt.mpr hor; simpa using this
+    rw [pA, pn]
+    apply wrap_of_inRange
+    constructor
+    · have : tmin T ≤ 0 := by unfold tmin; split <;> simp; exact Int.pow_nonneg (by decide)
+      have h0 : (0 : Int) ≤ ((A.toNat ||| n.toNat : Nat) : Int) := Int.natCast_nonneg _
+      exact Int.le_trans this h0
+    · show ((A.toNat ||| n.toNat : Nat) : Int) ≤ tmax T
+      rw [ht]; omega
+  obtain ⟨r, s⟩ := T
+  cases r <;> cases s
+  · exact key 8 (by simp [Ty.bits, Rank.bits]) (by simp [tmax, Ty.bits, Rank.bits])
+  · exact key 7 (by simp [Ty.bits, Rank.bits]) (by simp [tmax, Ty.bits, Rank.bits])
+  · exact key 16 (by simp [Ty.bits, Rank.bits]) (by simp [tmax, Ty.bits, Rank.bits])
+  · exact key 15 (by simp [Ty.bits, Rank.bits]) (by simp [tmax, Ty.bits, Rank.bits])
+  · exact key 32 (by simp [Ty.bits, Rank.bits]) (by simp [tmax, Ty.bits, Rank.bits])
+  · exact key 31 (by simp [Ty.bits, Rank.bits]) (by simp [tmax, Ty.bits, Rank.bits])
+  · exact key 64 (by simp [Ty.bits, Rank.bits]) (by simp [tmax, Ty.bits, Rank.bits])
+  · exact key 63 (by simp [Ty.bits, Rank.bits]) (by simp [tmax, Ty.bits, Rank.bits])
+  · exact key 64 (by simp [Ty.bits, Rank.bits]) (by simp [tmax, Ty.bits, Rank.bits])
+  · exact key 63 (by simp [Ty.bits, Rank.bits]) (by simp [tmax, Ty.bits, Rank.bits])
+
+/-- value of `x | n1` for a non-negative `x` and a number token with non-negative value n1 -/
+theorem bor_node_val {S ρ a' x an sp V n1}
+    (g : annOK S (.bin a' .bor x (.lit an sp)) = true) (hnum : an.num = some n1) (hn1 : 0 ≤ n1)
+    (hx0 : ∀ X, eval S ρ x = some X → 0 ≤ X)
+    (hV : eval S ρ (.bin a' .bor x (.lit an sp)) = some V) :
+    ∃ p : Nat, V = ((p ||| n1.toNat : Nat) : Int) := by
+  obtain ⟨A, B, hA, hB, hv'⟩ := eval_bin_cop (by rfl) hV
+  obtain ⟨_, glit⟩ := annOK_bin g
+  obtain ⟨rfl, rB⟩ := lit_num glit hnum hn1 hB
+  have a0 := hx0 A hA
+  simp only [evalBin, BinOp.isShift, Bool.false_eq_true, if_false, Option.some.injEq] at hv'
+  have hrB := inRange_uac_nonneg_right (tyOf S x) (tyOf S (.lit an sp)) B (by simpa [tyOf] using rB) hn1
+  have hrA := inRange_uac_nonneg_left (tyOf S x) (tyOf S (.lit an sp)) A (eval_inRange S ρ x A hA) a0
+  rw [wrap_of_inRange _ _ hrB.1, wrap_of_inRange _ _ hrA.1, bor_const _ A B hrA.1 hrB.1 a0 hn1] at hv'
+  exact ⟨A.toNat, hv'.symm⟩
+
+/-- `comparison()` on `(x | n1) op r`, x non-negative (unsigned), Known value on the right: the verdict holds -/
+theorem bitor_cmp_sound {S ρ a op a' x an sp r v n1 n2 b}
+    (hc : op.isCmp = true) (gl : annOK S (.bin a' .bor x (.lit an sp)) = true) (gr : annOK S r = true)
+    (hs : cmpSafe S (.bin a op (.bin a' .bor x (.lit an sp)) r) = true)
+    (hx0 : ∀ X, eval S ρ x = some X → 0 ≤ X)
+    (hk : r.ann.known = some n2) (hn2 : 0 ≤ n2) (hnum : an.num = some n1)
+    (hv : bitCmpVerdict .bor op true n1 n2 = some b)
+    (he : eval S ρ (.bin a op (.bin a' .bor x (.lit an sp)) r) = some v) : v = b2i b := by
+  obtain ⟨X, Y, hX, hY, e, _, cY⟩ := cmp_exact hs hc (Or.inr (by simp [hk])) he
+  have q := known_eq gr hk hY cY
+  obtain ⟨p, rfl⟩ := bor_node_val gl hnum (bitCmpVerdict_n1 hv) hx0 hX
+  rw [e, ← q, bitOr_verdict_sound hv hn2 p]
+
+/-- the same with the Known value on the left -/
+theorem bitor_cmp_sound_left {S ρ a op a' x an sp l v n1 n2 b}
+    (hc : op.isCmp = true) (gl : annOK S l = true) (gr : annOK S (.bin a' .bor x (.lit an sp)) = true)
+    (hs : cmpSafe S (.bin a op l (.bin a' .bor x (.lit an sp))) = true)
+    (hx0 : ∀ X, eval S ρ x = some X → 0 ≤ X)
+    (hk : l.ann.known = some n2) (hn2 : 0 ≤ n2) (hnum : an.num = some n1)
+    (hv : bitCmpVerdict .bor (flipOp op) true n1 n2 = some b)
+    (he : eval S ρ (.bin a op l (.bin a' .bor x (.lit an sp))) = some v) : v = b2i b := by
+  obtain ⟨X, Y, hX, hY, e, cX, _⟩ := cmp_exact hs hc (Or.inl (by simp [hk])) he
+  have q := known_eq gl hk hX cX
+  obtain ⟨p, rfl⟩ := bor_node_val gr hnum (bitCmpVerdict_n1 hv) hx0 hY
+  rw [e, ← q, ← cmpZ_flip, bitOr_verdict_sound hv hn2 p]
+
+/-- an operand whose value type is unsigned (and `vtOK`) never has a negative value -/
+theorem unsigned_vt_nonneg {S ρ x X} (hv : vtOK S x = true)
+    (hu : unsFlag x = true)
+    (hX : eval S ρ x = some X) : 0 ≤ X := by
+  unfold vtOK at hv
+  unfold unsFlag at hu
+  cases hvt : x.ann.vt with
+  | none => rw [hvt] at hu; simp at hu
+  | some vt =>
+    rw [hvt] at hv hu
+    simp only [Bool.or_eq_true, Bool.and_eq_true, beq_iff_eq, bne_iff_ne] at hv hu
+    rcases hv with hv | ⟨_, hb⟩
+    · have hr := eval_inRange S ρ x X hX
+      have hsg : (tyOf S x).signed = false := by
+        cases hs : (tyOf S x).signed with
+        | false => rfl
+        | true => rw [hv] at hu; simp [toVT, hs] at hu
+      unfold inRange tmin at hr
+      rw [hsg] at hr
+      simpa using hr.1
+    · rcases (isBoolVal_eval hb hX).1 with rfl | rfl <;> decide
+
+/-! ### from `findings` to the verdict theorems -/
+
+theorem vtAll_root {S e} (h : vtAll S e = true) : vtOK S e = true := by
+  cases e <;> simp only [vtAll, Bool.and_eq_true] at h
+  · exact h
+  · exact h
+  · exact h.1
+  · exact h.1.1
+
+theorem vtAll_bin {S a op l r} (h : vtAll S (.bin a op l r) = true) : vtAll S l = true ∧ vtAll S r = true := by
+  simp only [vtAll, Bool.and_eq_true] at h
+  exact ⟨h.1.2, h.2⟩
+
+/-- the side conditions of a condition pass down to every comparison token below it -/
+theorem cmpNodes_sub {S : Sem} : ∀ (c : Expr) {op l r}, (op, l, r) ∈ cmpNodes c → annOK S c = true → cmpSafe S c = true →
+    vtAll S c = true →
+    op.isCmp = true ∧ annOK S l = true ∧ annOK S r = true ∧ (∀ a, cmpSafe S (.bin a op l r) = true) ∧
+      vtAll S l = true ∧ vtAll S r = true
+  | .lit _ _, _, _, _, h, _, _, _ => by simp [cmpNodes] at h
+  | .var _ _, _, _, _, h, _, _, _ => by simp [cmpNodes] at h
+  | .un a o e, op, l, r, h, ga, gs, gv => by
+    simp only [cmpNodes] at h
+    simp only [annOK, Bool.and_eq_true] at ga
+    simp only [cmpSafe] at gs
+    simp only [vtAll, Bool.and_eq_true] at gv
+    exact cmpNodes_sub e h ga.1.1 gs gv.2
+  | .bin a o x y, op, l, r, h, ga, gs, gv => by
+    simp only [cmpNodes, List.mem_append] at h
+    obtain ⟨gx, gy⟩ := annOK_bin ga
+    have gs' := gs
+    simp only [cmpSafe, Bool.and_eq_true] at gs'
+    obtain ⟨vx, vy⟩ := vtAll_bin gv
+    rcases h with (h | h) | h
+    · exact cmpNodes_sub x h gx gs'.1.1 vx
+    · split at h
+      · rename_i hc
+        simp only [List.mem_singleton, Prod.mk.injEq] at h
+        obtain ⟨rfl, rfl, rfl⟩ := h
+        exact ⟨hc, gx, gy, fun a' => by simpa only [cmpSafe] using gs, vx, vy⟩
+      · simp at h
+    · exact cmpNodes_sub y h gy gs'.1.2 vy
+
+theorem rangeFinding_sound {S ρ a op l r f v} (h : rangeFinding op l r = some f)
+    (hc : op.isCmp = true) (gl : annOK S l = true) (gr : annOK S r = true) (hs : cmpSafe S (.bin a op l r) = true)
+    (hvl : vtOK S l = true) (hvr : vtOK S r = true) (he : eval S ρ (.bin a op l r) = some v) : v = b2i f.verdict := by
+  unfold rangeFinding at h
+  simp only at h
+  split at h
+  · rename_i b hb
+    simp only [Option.some.injEq] at h
+    subst h
+    exact outOfRange_sound hc gl gr hs hvl hvr (Or.inl hb) he
+  · split at h
+    · rename_i b hb
+      simp only [Option.some.injEq] at h
+      subst h
+      exact outOfRange_sound hc gl gr hs hvl hvr (Or.inr hb) he
+    · simp at h
+
+/-- what a comparisonError finding of `expr1 op expr2` was computed from -/
+theorem aux_mem {op : BinOp} {e1 e2 : Expr} {f : Finding} (hf : f ∈ bitCmpFindingsAux op e1 e2) :
+    ∃ a bitop x y n1 n2, e1 = .bin a bitop x y ∧ (bitop = .band ∨ bitop = .bor) ∧ e2.ann.known = some n2 ∧ 0 ≤ n2 ∧
+      n1 ∈ numChildren bitop e1 ∧ bitCmpVerdict bitop op (unsFlag x) n1 n2 = some f.verdict := by
+  unfold bitCmpFindingsAux at hf
+  split at hf
+  · simp at hf
+  · rename_i n2 hk
+    split at hf
+    · simp at hf
+    · rename_i hn2
+      split at hf
+      · rename_i a bitop x y
+        split at hf
+        · rename_i hb
+          simp only [List.mem_filterMap] at hf
+          obtain ⟨n1, hn1, hm⟩ := hf
+          split at hm
+          · rename_i b hv
+            simp only [Option.some.injEq] at hm
+            subst hm
+            refine ⟨a, bitop, x, y, n1, n2, rfl, ?_, hk, by omega, hn1, hv⟩
+            simpa using hb
+          · simp at hm
+        · simp at hf
+      · simp at hf
+
+theorem numChildren_shape_right {bitop : BinOp} {a' x an sp} (hp : plainOperand bitop x = true) :
+    numChildren bitop (.bin a' bitop x (.lit an sp)) = [an.num.getD 0] := by
+  cases x <;> simp [numChildren, plainOperand] at hp ⊢
+  rename_i o _ _
+  intro h; exact absurd h (by simpa using hp)
+
+theorem numChildren_shape_left {bitop : BinOp} {a' x an sp} (hp : plainOperand bitop x = true) :
+    numChildren bitop (.bin a' bitop (.lit an sp) x) = [an.num.getD 0] := by
+  cases x <;> simp [numChildren, plainOperand] at hp ⊢
+  rename_i o _ _
+  intro h; exact absurd h (by simpa using hp)
+
+theorem lit_num_some {S an sp} (g : annOK S (.lit an sp) = true) : ∃ k, an.num = some k := by
+  simp only [annOK, Bool.and_eq_true, beq_iff_eq] at g
+  exact ⟨_, by rw [g.2, g.1.1.1.2]⟩
+
+/-- a comparisonError finding computed for `e1 op e2` (e1 one of the covered bit tests) holds for the comparison it was
+    computed from, in either operand order of the program text -/
+theorem aux_shape_sound {S : Sem} {ρ : Env} {op : BinOp} {e1 e2 : Expr} {f : Finding}
+    (hsh : bitShape e1 = true) (hf : f ∈ bitCmpFindingsAux op e1 e2)
+    (g1 : annOK S e1 = true) (g2 : annOK S e2 = true) (w1 : vtAll S e1 = true) :
+    (∀ a v, op.isCmp = true → cmpSafe S (.bin a op e1 e2) = true → eval S ρ (.bin a op e1 e2) = some v → v = b2i f.verdict) ∧
+    (∀ a op' v, op = flipOp op' → op'.isCmp = true → cmpSafe S (.bin a op' e2 e1) = true →
+      eval S ρ (.bin a op' e2 e1) = some v → v = b2i f.verdict) := by
+  obtain ⟨a0, bitop, x0, y0, n1, n2, he1, _, hk, hn2, hn1, hv⟩ := aux_mem hf
+  unfold bitShape at hsh
+  split at hsh
+  · -- x & n
+    rename_i a' x an sp
+    cases he1
+    obtain ⟨_, glit⟩ := annOK_bin g1
+    obtain ⟨k, hnum⟩ := lit_num_some glit
+    rw [numChildren_shape_right hsh, hnum] at hn1
+    simp only [Option.getD_some, List.mem_singleton] at hn1
+    subst hn1
+    refine ⟨fun a v hc hs he => bitand_cmp_sound (Or.inl rfl) hc g1 g2 hs hk hn2 hnum hv he,
+            fun a op' v ho hc hs he => ?_⟩
+    subst ho
+    exact bitand_cmp_sound_left (Or.inl rfl) hc g2 g1 hs hk hn2 hnum hv he
+  · -- n & x
+    rename_i a' an sp x _
+    cases he1
+    obtain ⟨glit, _⟩ := annOK_bin g1
+    obtain ⟨k, hnum⟩ := lit_num_some glit
+    rw [numChildren_shape_left hsh, hnum] at hn1
+    simp only [Option.getD_some, List.mem_singleton] at hn1
+    subst hn1
+    refine ⟨fun a v hc hs he => bitand_cmp_sound (Or.inr rfl) hc g1 g2 hs hk hn2 hnum hv he,
+            fun a op' v ho hc hs he => ?_⟩
+    subst ho
+    exact bitand_cmp_sound_left (Or.inr rfl) hc g2 g1 hs hk hn2 hnum hv he
+  · -- x | n, x unsigned
+    rename_i a' x an sp
+    simp only [Expr.bin.injEq] at he1
+    obtain ⟨rfl, rfl, rfl, rfl⟩ := he1
+    simp only [Bool.and_eq_true] at hsh
+    obtain ⟨hp, hu⟩ := hsh
+    obtain ⟨_, glit⟩ := annOK_bin g1
+    obtain ⟨k, hnum⟩ := lit_num_some glit
+    rw [numChildren_shape_right hp, hnum] at hn1
+    simp only [Option.getD_some, List.mem_singleton] at hn1
+    subst hn1
+    rw [hu] at hv
+    have hx0 : ∀ X, eval S ρ x = some X → 0 ≤ X :=
+      fun X hX => unsigned_vt_nonneg (vtAll_root (vtAll_bin w1).1) hu hX
+    refine ⟨fun a v hc hs he => bitor_cmp_sound hc g1 g2 hs hx0 hk hn2 hnum hv he,
+            fun a op' v ho hc hs he => ?_⟩
+    subst ho
+    exact bitor_cmp_sound_left hc g2 g1 hs hx0 hk hn2 hnum hv he
+  · simp at hsh
 
 end Cppcheck.CondExpr
